@@ -545,8 +545,12 @@ class SchedulingSolver(BaseModelWithJson):
                     new_task_solution.start_time = (
                         new_task_solution.start * self.problem.delta_time
                     )
+                # from the end itself: an unscheduled optional task of fixed duration
+                # keeps its declared duration while start and end are the same point
                 new_task_solution.end_time = (
-                    new_task_solution.start_time + new_task_solution.duration_time
+                    new_task_solution.start_time
+                    + (new_task_solution.end - new_task_solution.start)
+                    * self.problem.delta_time
                 )
             if task.optional:
                 # ugly hack, necessary because there's no as_bool()
